@@ -1568,8 +1568,11 @@ def replace_for_loops_with_dict_comp(source: str) -> str:
         generators = []
         transaction += 1
 
+        if sum(1 for _ in core.walk(n2, ast.Name(id=target))) != 1:
+            continue  # The loop reads the dict that it builds
+
         while core.match_template(
-            body_node, (ast.For(body=[object]), ast.If(body=[object], orelse=[]))
+            body_node, (ast.For(body=[object], orelse=[]), ast.If(body=[object], orelse=[]))
         ):
             if isinstance(body_node, ast.If):
                 generators[-1].ifs.append(body_node.test)
@@ -1616,7 +1619,7 @@ def replace_for_loops_with_set_list_comp(source: str) -> str:
     assign_template = ast.Assign(
         value=core.Wildcard("value", object), targets=[ast.Name(id=core.Wildcard("target", str))]
     )
-    for_template = ast.For(body=[object])
+    for_template = ast.For(body=[object], orelse=[])
     if_template = ast.If(body=[object], orelse=[])
 
     set_init_template = ast.Call(func=ast.Name(id="set"), args=[], keywords=[])
@@ -1628,6 +1631,9 @@ def replace_for_loops_with_set_list_comp(source: str) -> str:
         body_node = n2
         generators = []
         transaction += 1
+
+        if sum(1 for _ in core.walk(n2, ast.Name(id=target))) != 1:
+            continue  # The loop reads the collection that it builds
 
         while core.match_template(body_node, (for_template, if_template)):
             if isinstance(body_node, ast.If):
